@@ -81,6 +81,49 @@ func script(seed int64, idx int) {
 				return
 			}
 			vlib.CCount("reobservation_requests", 1)
+		case x == 9 && len(w.Txs) > 0: // the block is orphaned in the middle of a re-observation (after the status answer, before the main-chain answer)
+			tx := w.Txs[len(w.Txs)-1-rng.Intn(minInt(3, len(w.Txs)))]
+			var blk *alphsim.Block
+			w.Sim.WithLock(func() {
+				if evs := w.TxOf[tx]; len(evs) > 0 && evs[0].Block.Main {
+					blk = evs[0].Block
+				}
+			})
+			if blk == nil {
+				break
+			}
+			w.Sim.Mutate("advance", func(s *alphsim.Sim) { s.SetHeight(s.Height + 300) }) // deep enough for every level
+			wait(2)
+			stage := 0
+			w.Sim.WithLock(func() {
+				w.Sim.OnRequest = func(s *alphsim.Sim, kind string, ord int, detail string) {
+					switch {
+					case stage == 0 && kind == "tx-events" && detail == tx:
+						stage = 1
+						s.Version++
+						s.SetMain(blk.Hash, false)
+						for t, evs := range w.TxOf {
+							if len(evs) > 0 && evs[0].Block == blk {
+								s.TxBlock[t] = ""
+							}
+						}
+					case stage == 1 && kind == "main-chain" && detail == blk.Hash:
+						stage = 2
+						s.Version++ // a second, harmless state change: the forwarded message is then judged two versions after the block was last on the main chain
+						s.SetHeight(s.Height + 1)
+					}
+				}
+			})
+			w.Tr(fmt.Sprintf("reobserve %s while its block %s is orphaned between the status answer and the main-chain answer", tx[:8], blk.Hash[:8]))
+			ok := w.H.Reobserve(tx, 25*time.Second)
+			w.Sim.WithLock(func() { w.Sim.OnRequest = nil })
+			if !ok {
+				vlib.CFinding("reobserve:request-not-handled-within-watchdog", map[string]interface{}{"script": desc, "trace": w.Trace})
+				return
+			}
+			vlib.CCount("reobservation_requests", 1)
+			vlib.CCount("reorg_during_reobservation", 1)
+			vlib.CCount("reorgs", 1)
 		case x == 7: // staggered confirmations inside one block, with a reorg in between
 			var blk *alphsim.Block
 			clLate := []uint8{2, 5, 10}[rng.Intn(3)]
